@@ -1,9 +1,9 @@
 SPECIFICATION Spec
 CONSTANTS
-  TypeSeq <- TS3
+  TypeSeq <- TS2
   MaxVars = 2
   MaxStmts = 2
-  Forms = {"sfx", "tv", "bin", "band", "as", "asbin", "call", "idx", "len", "cmp", "cmpbin", "declt", "asgu", "asgt", "chain"}
-  Rets = {"void", "i32", "u8"}
+  Forms = {"sfx", "tv", "bin", "as", "call", "idx", "cmp", "declt", "asgu", "asgt", "chain"}
+  Rets = {"void", "i32"}
 INVARIANTS ASound AUndet ASolution EmitCase
 CHECK_DEADLOCK FALSE
